@@ -1,7 +1,7 @@
 #!/usr/bin/env python3-vt
 """Developer tool: run registered checks against a seeded change WITHOUT touching /repo.
 
-usage: run_seeded.py [--slot NAME] <seeded-id>:<check>[,<check>..] ...
+usage: run_seeded.py [--slot NAME] <seeded-id>[+<seeded-id>..]:<check>[,<check>..] ...
 
 For each job a copy of /repo's working tree is made under /var/tmp/verif-mut/<seeded-id>/repo, the patch
 /verif/seeded/<seeded-id>/patch.diff is applied to the copy, and `vcheck <check>` runs with VERIF_REPO pointing
@@ -33,13 +33,14 @@ def main():
         os.makedirs(repo)
         os.makedirs(out)
         subprocess.run(["rsync", "-a", "--exclude", "target", "--exclude", ".git", "/repo/", repo + "/"], check=True)
-        p = subprocess.run(["git", "apply", "--unsafe-paths", "--directory", repo, os.path.join(VERIF, "seeded", sid, "patch.diff")],
-                           cwd=repo, capture_output=True, text=True)
-        if p.returncode != 0:
-            p = subprocess.run(["patch", "-p1", "-i", os.path.join(VERIF, "seeded", sid, "patch.diff")], cwd=repo, capture_output=True, text=True)
+        bad = False
+        for one in sid.split("+"):
+            p = subprocess.run(["patch", "-p1", "-i", os.path.join(VERIF, "seeded", one, "patch.diff")], cwd=repo, capture_output=True, text=True)
             if p.returncode != 0:
-                print("%s: patch does not apply: %s" % (sid, (p.stdout + p.stderr)[-400:]))
-                continue
+                print("%s: patch does not apply: %s" % (one, (p.stdout + p.stderr)[-400:]))
+                bad = True
+        if bad:
+            continue
         for c in checks.split(","):
             env = dict(os.environ, VERIF_REPO=repo, VERIF_OUT=out)
             if slot:
@@ -51,10 +52,12 @@ def main():
             rec = {"check": c, "exit": r.returncode, "violations": len(viol), "wall_s": round(time.time() - t0, 1),
                    "first": [l[:400] for l in lines if not l.startswith("VIOLATION")][:4], "when": time.strftime("%Y-%m-%d %H:%M")}
             print(sid, json.dumps(rec)[:900], flush=True)
-            dp = os.path.join(VERIF, "seeded", sid, "detect.json")
-            prev = json.load(open(dp)) if os.path.exists(dp) else []
-            prev = [x for x in prev if x.get("check") != c] + [rec]
-            json.dump(prev, open(dp, "w"), indent=1)
+            rec["violation_lines"] = [l[:300] for l in lines if l.startswith("  ")][:12]
+            for one in sid.split("+"):
+                dp = os.path.join(VERIF, "seeded", one, "detect.json")
+                prev = json.load(open(dp)) if os.path.exists(dp) else []
+                prev = [x for x in prev if x.get("check") != c] + [dict(rec, applied_together_with=sid) if "+" in sid else rec]
+                json.dump(prev, open(dp, "w"), indent=1)
         shutil.rmtree(root, ignore_errors=True)
 
 
